@@ -58,6 +58,8 @@ type pathRun struct {
 	err     string
 	// want: the results of the outermost function to evaluate (nil = all)
 	want []int
+	// paths of the frame being interpreted (for special hooks that name atoms by access path)
+	paths map[ssa.Value]string
 }
 
 type pval struct {
@@ -166,6 +168,9 @@ func (r *pathRun) exec(fn *ssa.Function, args []pval, free map[*ssa.FreeVar]func
 	r.depth++
 	defer func() { r.depth-- }()
 	paths := map[ssa.Value]string{}
+	savedPaths := r.paths
+	r.paths = paths
+	defer func() { r.paths = savedPaths }()
 	calls := map[*ssa.Call][]pval{}
 	var it *Interp
 	atomAt := func(path string, t types.Type) (AVal, bool) {
